@@ -50,6 +50,27 @@ type RouteCase struct {
 	D  string            `json:"d"`
 	H  string            `json:"h"`
 	Nd map[string]string `json:"nd"`
+	// Alt scripts the draws of every lookup AFTER the first one of a push (the middleware must not draw again: it
+	// names the node the first lookup resolved to); chosen different from Nd so that a second draw shows
+	Alt map[string]string `json:"alt"`
+}
+
+// the order in which withTSAndSampleService looks the services of a push up
+func lookupOrder(kinds []string) []string {
+	out := []string{}
+	for _, first := range []string{"spl"} {
+		for _, k := range kinds {
+			if k == first {
+				out = append(out, k)
+			}
+		}
+	}
+	for _, k := range kinds {
+		if k != "spl" {
+			out = append(out, k)
+		}
+	}
+	return out
 }
 
 type WdCase struct {
@@ -121,9 +142,18 @@ func svcCase(in *CasesIn, c RouteCase, rnd *rand.Rand) RouteObs {
 		w.Init(s)
 	}
 	obs := RouteObs{ID: c.ID, Layer: "svc", Obs: Outcome{St: "routed", Node: map[string]string{}, Pool: map[string]string{}}}
-	for _, k := range in.Kinds {
-		w.regSrc.setIntn(w.regIndex(k, c.Nd[k]))
-		svc, err := w.lookup(k, c.D)
+	// like the middleware: the first service is looked up with the DSN, the others with the name of its node
+	dsn := c.D
+	for i, k := range lookupOrder(in.Kinds) {
+		if i == 0 {
+			w.regSrc.setIntn(w.regIndex(k, c.Nd[k]))
+		} else {
+			w.regSrc.setIntn(w.regIndex(k, c.Alt[k]))
+		}
+		svc, err := w.lookup(k, dsn)
+		if i == 0 && err == nil && svc != nil {
+			dsn = svc.GetNodeName()
+		}
 		if err != nil || svc == nil {
 			obs.Obs.St = "rejected"
 			obs.Obs.Node[k], obs.Obs.Pool[k] = "none", "none"
@@ -396,11 +426,11 @@ func childHTTP() int {
 	out := CasesOut{}
 	for _, c := range in.Route {
 		id := fmt.Sprintf("h%d", c.ID)
-		// the middleware looks up samples, series, profiles - in this order; each lookup of a push without a
-		// usable DSN draws once
+		// the middleware looks up samples, series, profiles - in this order; only the first lookup of a push without
+		// a usable DSN may draw (c.Nd); draws of the later lookups, if the code makes any, give c.Alt
 		hw.regSrc.mu.Lock()
-		hw.regSrc.seq = []int64{idxOf(regOrder("SamplesSvcs"), c.Nd["spl"]) << 32, idxOf(regOrder("TimeSeriesSvcs"), c.Nd["ts"]) << 32,
-			idxOf(regOrder("ProfileInsertSvc"), c.Nd["ts"]) << 32}
+		hw.regSrc.seq = []int64{idxOf(regOrder("SamplesSvcs"), c.Nd["spl"]) << 32, idxOf(regOrder("TimeSeriesSvcs"), c.Alt["ts"]) << 32,
+			idxOf(regOrder("ProfileInsertSvc"), c.Alt["ts"]) << 32}
 		hw.regSrc.mu.Unlock()
 		body := fmt.Sprintf(`{"streams":[{"stream":{"case":"push=%s;"},"values":[["1700000000000000000","push=%s; line"]]}]}`, id, id)
 		req := httptest.NewRequest("POST", "/loki/api/v1/push", strings.NewReader(body))
